@@ -47,3 +47,42 @@ package arvados
 //@   loop 1: invariant sawEOF == lastEmpty && len(entries) == nl
 //@   ensures result1 == nil ==> sawEOF && lastEmpty && len(result0) == nl
 //@   calls append#1: requires len(fields) == 2 && !sawEOF
+
+// ------------------------------------------- C08: collection file arithmetic
+// segment.Len is a pure observation (callers hold the file lock; segments are
+// not mutated while a pointer is being computed).
+//@ iface segment.Len pure
+//@   modifies nothing
+//@   ensures result >= 0
+
+// segsum(r, o, k): total length of the first k segments of a segment slice
+// with backing array r and offset o (prefix sum).
+//@ spec func segsum(r $row[segment], o int, k int) int
+//@ axiom forall r $row[segment], o int, k int :: {segsum(r, o, k)} k <= 0 ==> segsum(r, o, k) == 0
+//@ axiom forall r $row[segment], o int, k int :: {segsum(r, o, k)} k > 0 ==> segsum(r, o, k) == segsum(r, o, k-1) + segment.Len(r[ix(o, k-1)])
+// Monotonicity follows from segment.Len >= 0 by induction on b-a; the induction
+// is not mechanised and the statement is used as an axiom.
+//@ axiom forall r $row[segment], o int, a int, b int :: {segsum(r, o, a), segsum(r, o, b)} 0 <= a && a <= b ==> segsum(r, o, a) <= segsum(r, o, b)
+
+// fnValid: the representation invariant of a file node: the recorded size is
+// the sum of the segment lengths and no segment is empty.
+//@ spec macro fnValid(fn) bool = fn.fileinfo.size == segsum(row(fn.segments), rowoff(fn.segments), len(fn.segments)) && (forall k int :: 0 <= k && k < len(fn.segments) ==> segment.Len(fn.segments[k]) > 0)
+
+// ptrOK: a pointer computed for the current packing of the file.
+//@ spec macro ptrOK(fn, p) bool = 0 <= p.segmentIdx && p.segmentIdx <= len(fn.segments) && 0 <= p.segmentOff && (p.segmentIdx < len(fn.segments) ==> p.segmentOff <= segment.Len(fn.segments[p.segmentIdx])) && (p.segmentIdx == len(fn.segments) ==> p.segmentOff == 0) && segsum(row(fn.segments), rowoff(fn.segments), p.segmentIdx) + p.segmentOff == p.off
+
+//@ func filenode.seek$1 property C08
+//@   ensures ptr.repacked == fn.repacked && ptr.off == old(ptr.off) && ptr.segmentIdx == old(ptr.segmentIdx) && ptr.segmentOff == old(ptr.segmentOff)
+
+// seek: for a non-negative offset the result is consistent with the current
+// packing: precisely EOF (index len, offset 0) iff off >= size, otherwise a
+// segment index in range, an offset strictly inside that segment, and prefix
+// sum + offset == off.  No index panic for any valid file node.
+//@ func filenode.seek property C08
+//@   requires fnValid(fn)
+//@   requires startPtr.repacked == fn.repacked && startPtr.off >= 0 && startPtr.off < fn.fileinfo.size ==> ptrOK(fn, startPtr)
+//@   ensures ptr.off == startPtr.off
+//@   ensures startPtr.off >= 0 ==> ptr.repacked == fn.repacked
+//@   ensures startPtr.off >= fn.fileinfo.size ==> ptr.segmentIdx == len(fn.segments) && ptr.segmentOff == 0
+//@   ensures startPtr.off >= 0 && startPtr.off < fn.fileinfo.size ==> 0 <= ptr.segmentIdx && ptr.segmentIdx < len(fn.segments) && 0 <= ptr.segmentOff && ptr.segmentOff < segment.Len(fn.segments[ptr.segmentIdx]) && segsum(row(fn.segments), rowoff(fn.segments), ptr.segmentIdx) + ptr.segmentOff == ptr.off
+//@   loop 1: invariant fn == old(fn) && ptr.off == startPtr.off && ptr.repacked == startPtr.repacked && 0 <= ptr.segmentIdx && ptr.segmentIdx <= len(fn.segments) && ptr.segmentOff == 0 && off == segsum(row(fn.segments), rowoff(fn.segments), ptr.segmentIdx) && off <= ptr.off && ptr.off < fn.fileinfo.size
